@@ -24,7 +24,7 @@ ASSUMPTIONS = ["N_l = 0 with V_l > 0 counts as infinite variance; V_l = 0 contri
                "bounded termination: a run that needs more than the sample budget (quick 1.5e5, thorough 2e6) is inconclusive",
                "configurations with 2 <= initial_level <= maximum_level (the criteria reads three level means)"]
 REQUIRED_COUNTERS = ["allocation_checks", "bias_tolerance_measurements", "runs", "criteria_calls_observed", "allocation_calls_observed",
-                     "runs_stopped_by_criteria", "runs_stopped_at_maximum_level"]
+                     "runs_stopped_by_criteria", "runs_stopped_at_maximum_level", "default_configuration_histories"]
 MIN_NONTRIVIAL = {"quick": 150, "thorough": 3000}
 SHARD_TIMEOUT = {"quick": 900, "thorough": 7200}
 
@@ -40,6 +40,13 @@ def gen_cases(tier, seed):
                       "N0": int(rng.choice([2, 5, 20, 100])), "Lmax_extra": int(rng.integers(0, 6)), "beta": float(rng.uniform(0.6, 2.2)),
                       "alpha": float(rng.uniform(0.5, 1.5)), "rates_given": bool(i % 3 != 0), "scale": float(rng.choice([1.0, 30.0])),
                       "budget": 2_000_000 if tier == "thorough" else 150_000})
+    # histories of pricings in one process with the library's DEFAULT configuration arguments (no convergence rates given): a run must not
+    # depend on the runs priced before it
+    for i in range(6 if tier == "quick" else 60):
+        a = {"seed": int(rng.integers(2**31)), "profile": "geometric", "rmse_exp": float(rng.uniform(-1.3, -0.6)), "L0": 2, "N0": 20, "Lmax_extra": 4,
+             "beta": float(rng.uniform(1.2, 2.2)), "alpha": float(rng.uniform(1.0, 1.5)), "scale": 1.0, "budget": 150_000}
+        b = dict(a, seed=int(rng.integers(2**31)), profile="slow-decay", alpha=float(rng.uniform(0.5, 0.7)), beta=float(rng.uniform(0.6, 0.9)))
+        cases.append({"kind": "history", "a": a, "b": b, "seed": a["seed"]})
     return cases
 
 
@@ -47,8 +54,44 @@ def run_case(case, R):
     R.evaluation()
     if case["kind"] == "alloc":
         _alloc(case, R)
+    elif case["kind"] == "history":
+        _history(case, R)
     else:
         _run(case, R)
+
+
+def _history(case, R):
+    """run A, run B, run A again -- each with a fresh scripted process, a fresh engine and a fresh configuration built with the library's
+    default arguments; the scripted samples are deterministic, so the two runs of A must agree exactly"""
+    from rpylib.montecarlo.configuration import ConfigurationMultiLevel
+    from rpylib.montecarlo.multilevel.engine import Engine
+    from rpylib.product.product import Product
+    from rpylib.product.underlying import Spot
+    from rpylib.product.payoff import Forward
+
+    def price(c):
+        profile, cost = make_profile(c)
+        cp = ScriptedCoupling(profile, cost, rate=0.02, budget=c["budget"])
+        conf = ConfigurationMultiLevel(initial_level=c["L0"], maximum_level=c["L0"] + c["Lmax_extra"], initial_mc_paths=c["N0"], seed=7, nb_of_processes=1)
+        product = Product(payoff_underlying=Spot(), payoff=Forward(strike=10.0), maturity=1.5, notional=2.0)
+        st = Engine(conf, cp).price(product, c["scale"] * 10.0 ** c["rmse_exp"])
+        return [int(n) for n in st.mlmc_results.Nl], float(st.price())
+
+    try:
+        a1 = price(case["a"])
+        price(case["b"])
+        a2 = price(case["a"])
+    except BudgetExceeded:
+        R.skip("sample-budget-exceeded (bounded termination not decided)")
+        return
+    except Exception as exc:  # noqa: BLE001
+        R.violation("engine-raises", f"multilevel Engine.price raises {type(exc).__name__}: {exc}", {"case": case})
+        return
+    R.hit("default_configuration_histories")
+    if a1 != a2:
+        R.violation("run-depends-on-the-runs-priced-before-it", f"the same run (default convergence rates, fresh process / engine / configuration objects) gives "
+                    f"Nl = {a1[0]}, price {a1[1]!r} the first time and Nl = {a2[0]}, price {a2[1]!r} after another pricing in the same process", {"case": case})
+    R.nontrivial_case("history", case["seed"])
 
 
 def _bias_tolerance(criteria, alpha, rmse):
